@@ -490,6 +490,50 @@ func FamilyDefault(thorough bool) []*Conv {
 			}
 		}
 	}
+	// the method's struct pair occurs again by value inside itself (the method is built more than once while its
+	// sub-methods are discovered): FUNC still applies on every build
+	for _, fnPtr := range []bool{false, true} {
+		for _, upd := range []bool{false, true} {
+			for _, tgtPtr := range []bool{true, false} {
+				if !tgtPtr && fnPtr {
+					continue
+				}
+				n++
+				fres, body := "PFXOut", "return PFXOut{}"
+				if fnPtr {
+					fres, body = "*PFXOut", "return &PFXOut{}"
+				}
+				tgt := "PFXOut"
+				if tgtPtr {
+					tgt = "*PFXOut"
+				}
+				decl := "type PFXIn struct {\n\tName string\n\tChildren []PFXIn\n\tByKey map[string]PFXIn\n}\ntype PFXOut struct {\n\tName string\n\tChildren []PFXOut\n\tByKey map[string]PFXOut\n\tKeep string\n}\n" +
+					fmt.Sprintf("func PFXNew() %s { %s }\n", fres, body)
+				u := &UpdateSpec{DefaultFn: "PFXNew", DefaultUpdate: upd}
+				cv := &Conv{
+					ID:      fmt.Sprintf("default/selfnested_tp%v_fp%v_upd%v", tgtPtr, fnPtr, upd),
+					Family:  "default",
+					Format:  []string{"struct", "function", "variable"}[n%3],
+					Params:  "source *PFXIn",
+					Results: tgt,
+					Decls:   decl,
+					Spec: &Spec{Update: u, ZeroOnNil: !tgtPtr, Pairs: map[string]*PairSpec{
+						"PFXIn→PFXOut": {IgnoreMissing: true},
+					}},
+					Bounds:      &Bounds{MaxSlice: 1, MaxMap: 1, RecDepth: 1},
+					ConvLines:   []string{"ignoreMissing"},
+					MethodLines: []string{"default PFXNew"},
+				}
+				if upd {
+					cv.MethodLines = append(cv.MethodLines, "default:update")
+				}
+				if !tgtPtr {
+					cv.MethodLines = append(cv.MethodLines, "useZeroValueOnPointerInconsistency")
+				}
+				out = append(out, cv)
+			}
+		}
+	}
 	return out
 }
 
